@@ -123,7 +123,9 @@ class Index:
         for f in list(self.func_by_id.values()):
             prev = f.node.get('previousDecl')
             if prev and f.body is not None and prev in self.func_by_id:
-                self.func_by_id[prev].body = self.func_by_id[prev].body or f.body
+                if self.func_by_id[prev].body is None:
+                    self.func_by_id[prev].body = f.body
+                    self.func_by_id[prev].params = f.params     # the body refers to the definition's parameters
                 self.func_by_id[prev].defn = f
         # redeclarations after the definition (e.g. `int numNibbles(int);` following the static definition)
         for f in list(self.func_by_id.values()):
